@@ -39,20 +39,20 @@ P = {
  'C12': ('fault_enumeration', 'corruption enumeration through RTU clients on a scripted transport',
    'Every bit flip, byte substitution, truncation, extension and selected multi-byte corruptions (swapped / foreign CRC) of every reply shape, delivered whole, cut at 5 and at a PRNG cut: never data, never a device exception.',
    'precondition (trailer != CRC of consumed bytes) checked per case'),
- 'C13': ('exploration', 'history monitor: buffer snapshots + alone-on-fresh-copy baseline',
-   'All ordered pairs of accessor variants and PRNG histories on one view, ExtractFields repeated/permuted/strict/lenient and Field.ExtractFrom on a shared Registers; the frame buffer is compared after every call and every result with the same call made alone on a freshly parsed copy.',
+ 'C13': ('exploration', 'history monitor: buffer snapshots + alone-on-fresh-copy baseline, concurrent readers under the race detector',
+   'All ordered pairs of accessor variants and PRNG histories on one view, ExtractFields repeated/permuted/strict/lenient and Field.ExtractFrom on a shared Registers; the frame buffer is compared after every call and every result with the same call made alone on a freshly parsed copy; eight goroutines reading one view concurrently (built with -race) expose temporary in-place rearrangement.',
    'baseline is the library itself on a fresh copy (interference, not decoding correctness)'),
  'C14': ('exploration', 'race detector + wire-level overlap detector + reply matching + porcupine linearizability check of recorded histories',
    'N goroutines share one client against a harness device with PRNG delays; the transport detects a request written while another caller\'s reply is outstanding or a garbled frame, every caller verifies its own unique reply (again after later calls), a FC6/FC3 register history is checked with porcupine, Close/Connect and cancelled callers run concurrently; built with -race, cases run in child processes so that runtime-fatal errors identify their case.',
    'mutual exclusion is observed at the transport boundary; schedules are sampled (PRNG delays), not enumerated'),
  'C15': ('exploration', 'exhaustive segmentation enumeration of the assembler + in-memory end-to-end server runs',
-   'Layer A feeds ALL 2^(n-1) segmentations of every short request (and all single/double cuts and PRNG cuts of streams of up to 6 requests) through ModbusTCPAssembler and compares the cumulative output after every feed with the reply stream of whole-frame feeding and with the device reference; layer B repeats lock-step and pipelined streams through server.Server over net.Pipe connections under -race.',
+   'Layer A feeds ALL 2^(n-1) segmentations of every short request (and all single/double cuts and PRNG cuts of streams of up to 6 requests) through ModbusTCPAssembler and compares the cumulative output after every feed with the reply stream of whole-frame feeding and with the device reference; layer B repeats lock-step and pipelined streams through server.Server over net.Pipe connections under -race; hostile payloads (write data that is itself a valid frame, with a hesitating client) and unsupported-function frames inside streams; a loopback ListenAndServe layer cross-checks the in-memory transport.',
    'simdev reference replies; net.Pipe makes one client write exactly one server read'),
  'C16': ('fault_enumeration', 'frame-class x handler-mode enumeration through assembler and real server, child processes',
    'Valid, unsupported, out-of-range, truncated and inconsistent frames x handlers returning a response / typed error / generic error / panicking (string, error, runtime error); every reply is decoded by the reference decoder and matched to its request (k-th reply to k-th request, also in pipelined streams); panics must only cost their own connection: control connection and process stay alive.',
    'exception codes only constrained where the property names them (01, 03)'),
  'C17': ('exploration', 'race detector + history monitors (accounting interval oracle, exactly-once callbacks, in-flight reply conservation, state-witness for Serve return) with verif yield hooks',
-   'All 16 callback combinations x PRNG client schedules x terminal actions x delays at four verif-tagged yield points, each case in a child process under -race; events from callbacks, handler, recording connections and the terminal action share one logical clock and are checked offline.',
+   'All 16 callback combinations x PRNG client schedules x terminal actions x delays at four verif-tagged yield points, each case in a child process under -race; events from callbacks, handler, recording connections and the terminal action share one logical clock and are checked offline; Shutdown overlapping the start of Serve and real-TCP ListenAndServe cases (port refuses connections afterwards) are included.',
    'hooks: server/verif_on.go (build tag verif); waits only bound observation, verdicts name the missing/present events'),
  'C18': ('exploration', 'classifier/dispatcher agreement monitor over prefixes and a header cube',
    'Every prefix of constructor-built frames, the header cube (length field x function code x protocol id) and dispatcher agreement on every accepted (fc, n).',
